@@ -139,6 +139,7 @@ type Node struct {
 	Inc     int // number of restarts of this process
 	Commits int // number of OnCommit hook calls (application commits) seen by this process
 	Applied []int64
+	callsSeen int // number of Ticker.Calls already checked by CheckTimeoutDurations
 }
 
 // Sim is the whole system.
@@ -318,6 +319,7 @@ func (s *Sim) boot(n *Node, first bool) error {
 	})
 	pool := &stubPool{}
 	n.Ticker = pbft.NewVerifTicker()
+	n.callsSeen = 0
 	cs := pbft.NewConsensusState(conf, st, n.Store, pool)
 	if cs == nil {
 		return fmt.Errorf("node %d: NewConsensusState returned nil", n.Idx)
@@ -962,4 +964,47 @@ func (s *Sim) indexAt(h int64, id int) int {
 		}
 	}
 	return idx
+}
+
+// CheckTimeoutDurations is the oracle for TimeoutMs of specs/tendermint/Tendermint.tla: every timeout a node has scheduled
+// since the last call must have the configured duration for its step and round (propose / prevote-wait / precommit-wait
+// grow linearly with the round; the new-height wait is at most timeout_commit). Stepping mode only.
+func (s *Sim) CheckTimeoutDurations() string {
+	if s.Live {
+		return ""
+	}
+	for _, i := range s.HonestIdx() {
+		n := s.Nodes[i]
+		if n.Ticker == nil {
+			continue
+		}
+		calls := n.Ticker.Calls
+		if n.callsSeen > len(calls) {
+			n.callsSeen = 0
+		}
+		for _, c := range calls[n.callsSeen:] {
+			ms := int64(c.Duration / time.Millisecond)
+			want := int64(-1)
+			switch c.Step {
+			case 3:
+				want = 3000 + 500*c.Round
+			case 5, 7:
+				want = 1000 + 500*c.Round
+			case 2:
+				want = 0
+			case 1:
+				if ms > 1000 {
+					return fmt.Sprintf("node %d scheduled the new-height wait of height %d with %d ms (timeout_commit is 1000 ms)", i, c.Height, ms)
+				}
+				continue
+			default:
+				return fmt.Sprintf("node %d scheduled a timeout for step %d, which has no timer", i, c.Step)
+			}
+			if ms != want {
+				return fmt.Sprintf("node %d scheduled the step-%d timeout of height %d round %d with %d ms, TimeoutMs says %d ms", i, c.Step, c.Height, c.Round, ms, want)
+			}
+		}
+		n.callsSeen = len(calls)
+	}
+	return ""
 }
